@@ -62,5 +62,52 @@ except Exception:
                    bounds="pre-state: one symbolic fill, then += an immutable container whose bin 'c' (index 1) has zero entries; then a failing fill into that bin")
 
 
+WT_SETUP = Q_SETUP + '''
+WRONG = ["oops", [3.0], (1.0, 2.0), None, {"a": 1}, b"x"]
+WEIGHTS = [1.0, 2, 3, True, 2.5]
+def QW(d):
+    if d[4] > 0: return WRONG[d[4] - 1]
+    return d[0]
+'''
+
+
+def failing_wrongtype(leaf, cont=None, timeout=40):
+    """the kind of wrong-typed return value (str, list, tuple, None, dict, bytes) and the type of the weight (float, int,
+    bool) by selector: `"oops" * 2` is a legal Python expression, so a fill that multiplies before it type-checks fails
+    only after it counted the record"""
+    from gen_C12 import LEAF
+    expr = LEAF[leaf].format(q="QW")
+    if cont:
+        tmpl, kind = CONT[cont]
+        q = {"num": "(lambda d: d[1])", "cat": '(lambda d: "c" if d[1] > 0.5 else "d")', "bool": "(lambda d: d[1] > -1.0)"}[kind]
+        expr = tmpl.format(q=q, c=expr)
+    body = """
+m = sel(m, 1, 2, 3, 4, 5, 6); wk = sel(wk, 0, 1, 2, 3, 4)
+h, twin = fresh(MK, 2)
+ok = (x1, 0.5, 0.0, 0.0, 0)
+h.fill(ok, WEIGHTS[wk]); twin.fill(ok, WEIGHTS[wk])
+before = J(h)
+try:
+    h.fill((x1, 0.5, 0.0, 0.0, m), WEIGHTS[wk])
+    return "wrong-typed-quantity-accepted"
+except Exception:
+    if not jsame(J(h), before): return "failing-fill-changed-state"
+h.fill(ok, WEIGHTS[wk]); twin.fill(ok, WEIGHTS[wk])
+if not jeq(J(h), J(twin)): return "final-state-differs-from-surviving-records"
+"""
+    name = (cont + ">" if cont else "") + leaf
+    return Harness(f"C12/fail-wrongtype/{name}", [("x1", "float"), ("m", "int"), ("wk", "int")],
+                   "-2.0 <= x1 < 2.0 and 1 <= m <= 6 and 0 <= wk <= 4", body, timeout=timeout,
+                   setup=WT_SETUP + f"MK = lambda: {expr}\n", tree=expr,
+                   bounds="ok fill, failing fill, ok fill; wrong value by selector over str/list/tuple/None/dict/bytes; weight by selector over 1.0, 2, 3, True, 2.5")
+
+
 def harnesses(tier):
-    return [failing_transform(c) for c in CONT] + [failing_preexisting()]
+    out = [failing_transform(c) for c in CONT] + [failing_preexisting()]
+    for leaf in ("Sum", "Average", "Deviate", "Minimize", "Maximize"):
+        out.append(failing_wrongtype(leaf))
+    for cont in (CONT if tier == "thorough" else ("Bin", "Categorize", "Select")):
+        out.append(failing_wrongtype("Sum", cont))
+        if tier == "thorough":
+            out.append(failing_wrongtype("Average", cont))
+    return out
